@@ -215,3 +215,47 @@ pub fn builder_history<W: Write>(p: &Prepared, sink: W) -> io::Result<()> {
         _ => Err(unsupported()),
     }
 }
+
+// ---------------------------------------------------------------------------------------------------------------
+// path-based convenience writers: `bai / csi / tabix / gzi / fai / crai ::fs::write(dst, &index)`
+
+pub fn has_fs_write(kind: Kind) -> bool {
+    matches!(kind, Kind::Bai | Kind::Csi | Kind::Tbi | Kind::Gzi | Kind::Fai | Kind::Crai)
+}
+
+/// One call of the `fs::write` function of the index kind.
+pub fn fs_write(p: &Prepared, dst: &std::path::Path) -> io::Result<()> {
+    match &p.model {
+        Model::Bai(index) => bam::bai::fs::write(dst, index),
+        Model::Csi(index) => noodles_csi::fs::write(dst, index),
+        Model::Tbi(index) => noodles_tabix::fs::write(dst, index),
+        Model::Gzi(index) => bgzf::gzi::fs::write(dst, index),
+        Model::Fai(index) => noodles_fasta::fai::fs::write(dst, index),
+        Model::Crai(index) => noodles_cram::crai::fs::write(dst, index),
+        _ => Err(unsupported()),
+    }
+}
+
+/// Runs `f` with the soft RLIMIT_FSIZE of the process lowered to `limit` bytes: a write to a regular file that
+/// would grow it beyond the limit is cut short, the next one fails with EFBIG — what a full disk does (ENOSPC), at
+/// a byte offset of our choosing. SIGXFSZ is ignored for the rest of the process (its default action kills it).
+pub fn with_file_size_limit<T>(limit: u64, f: impl FnOnce() -> T) -> io::Result<T> {
+    unsafe {
+        libc::signal(libc::SIGXFSZ, libc::SIG_IGN);
+        let mut old = libc::rlimit { rlim_cur: 0, rlim_max: 0 };
+        if libc::getrlimit(libc::RLIMIT_FSIZE, &mut old) != 0 {
+            return Err(io::Error::last_os_error());
+        }
+        let new = libc::rlimit { rlim_cur: (limit as libc::rlim_t).min(old.rlim_max), rlim_max: old.rlim_max };
+        if libc::setrlimit(libc::RLIMIT_FSIZE, &new) != 0 {
+            return Err(io::Error::last_os_error());
+        }
+        let r = f();
+        if libc::setrlimit(libc::RLIMIT_FSIZE, &old) != 0 {
+            // never continue with a crippled process
+            eprintln!("c14: cannot restore RLIMIT_FSIZE: {}", io::Error::last_os_error());
+            libc::_exit(4);
+        }
+        Ok(r)
+    }
+}
